@@ -53,6 +53,7 @@ def main():
     demo_dir = os.path.join(seed, "demo")
     for l in run_txt.splitlines():
         l = l.strip()
+        l = l.replace("<checkout>", WT).replace("<repo>", WT)
         l = re.sub(r"^cd \S+\s*&&\s*", "", l)
         l = re.sub(r"/tmp/seed[23]?-C\d+", WT, l)
         l = l.replace("<worktree>", WT).replace("<this dir>/../", seed + "/").replace("<this dir>", demo_dir)
